@@ -24,12 +24,13 @@ let frame_both (fr : frame) : string =
 
 let handle (w : string list) : string =
   match w with
-  | "op" :: flt :: (("puba" | "getdescp") as kind) :: args ->
+  | "op" :: flt :: (("puba" | "getdescp" | "getdatap") as kind) :: args ->
     let n = n_of_string in
     incr R_topic.opi;
     let o = match kind, args with
       | "puba", [sid; content; noecho; atts] -> APubAtt (n sid, n content, noecho = "1", atts_of atts)
       | "getdescp", [sid] -> ABase (OGetDesc (n sid))
+      | "getdatap", [sid] -> ABase (OGetData (n sid, z_of_string "0", z_of_string "0", z_of_string "0"))
       | _ -> failwith "bad puba/getdescp" in
     let (x1, outs) = astep_f TopicInst.del_ranges_i TopicInst.norm_ranges_i !R_topic.sm !R_topic.st (R_topic.parse_fault flt, o) in
     R_topic.st := x1;
